@@ -80,6 +80,8 @@ class Model:
             return '?'
         if ev == 'none':
             return 'none'
+        if len(ev) > 2 and ev[2] == 'any':
+            return 'any(%s#%d)' % (ev[0], ev[1])      # Kleene trigger: behaviours receive an any holding the original event
         return '%s#%d' % (ev[0], ev[1])
 
     def callback(self, ms, may_throw=True):
@@ -129,6 +131,17 @@ class Model:
         if k == 'or':
             return self.eval_guard(ms, g[1], ev) or self.eval_guard(ms, g[2], ev)
         raise ValueError(g)
+
+    def row_event(self, row, ev):
+        """the event as the behaviours of a row see it: the row's trigger type (a public base of the event's type slices
+        nothing observable but is what the behaviour's signature receives) or an any holding the original for Kleene rows"""
+        if not isinstance(ev, tuple) or row['ev'] is None:
+            return ev
+        if row['ev'] in self.kleene:
+            return (ev[0], ev[1], 'any')
+        if row['ev'] != ev[0]:
+            return (row['ev'], ev[1])
+        return ev
 
     def matches(self, trigger, ev):
         if ev == 'none':
@@ -382,8 +395,9 @@ class Model:
                     ms.deferred.append([ev, (ms.cur_seq + 1) & 0xFF])
                     rr.add(DEFERRED)
                 for row in cands:
-                    if self.eval_guard(ms, row.get('guard'), ev):
-                        rr.add(self.exec_row(ms, r_, row, ev))
+                    rev = self.row_event(row, ev)
+                    if self.eval_guard(ms, row.get('guard'), rev):
+                        rr.add(self.exec_row(ms, r_, row, rev))
                         break
                     else:
                         rr.add(REJECTED)
@@ -391,8 +405,9 @@ class Model:
         if TAKEN not in result and (DEFERRED not in result or self.dialect == 'back'):
             for row in reversed(m.get('internal', [])):
                 if self.matches(row['ev'], ev):
-                    if self.eval_guard(ms, row.get('guard'), ev):
-                        result.add(self.exec_row(ms, None, dict(row, tgt=None), ev))
+                    rev = self.row_event(row, ev)
+                    if self.eval_guard(ms, row.get('guard'), rev):
+                        result.add(self.exec_row(ms, None, dict(row, tgt=None), rev))
                         break
                     else:
                         result.add(REJECTED)
